@@ -312,7 +312,7 @@ Example C09J_reconnect_closes_subscribers :
   m_clients (run [ONewPub 1 0 false; ONewSub 2 1 0; OReconnect []]) = [1] /\
   m_pubs (run [ONewPub 1 0 false; ONewSub 2 1 0; OReconnect []]) = [].
 Proof. vm_compute. auto. Qed.
-(* the trace predicate holds on the model's traces of these histories (the general statement is not proved) *)
+(* the trace predicate holds on the model's traces of these histories (for every history: C09J_P_on_every_model_trace below) *)
 Example C09J_P_on_model_traces :
   forallb (fun ops => P_C09J (trace_of ops))
     [c09j_demo; c09j_left ++ [OReconnect []; ONewPub 1 0 false; OCloseAll 1; OCloseAll 2];
@@ -337,3 +337,142 @@ Print Assumptions C09J_close_while_up_removes.
 Print Assumptions C09J_close_idempotent.
 Print Assumptions C09J_one_publisher_per_stream_refuted.
 Print Assumptions C09J_second_publisher_loses_key.
+
+(* ---- C09J, continued: the reachable states (proofs/Janus_inv.v) ------------------------------------------------ *)
+From Verif Require Import proofs.Janus_inv.
+
+(* (1) JInv -- one object per id, every id below mcu.clientId has its object, per object: registered exactly when not
+   closed, no handle exactly when closed, a publisher no room number exactly when closed, while open exactly one handle
+   (one room, a publisher) at the gateway when the field is live and none otherwise, never a room for a subscriber;
+   mcu.clients without duplicates; a key of mcu.publishers names an open publisher of that stream; the gateway holds
+   handles and rooms only for ids handed out (and the MCU's own handle, once, while it knows the session; nothing when it
+   does not) -- holds initially, is kept by every operation, so holds after every history. *)
+Theorem C09J_invariant_init : JInv init.
+Proof. exact JInv_init. Qed.
+Theorem C09J_invariant_step : forall st o, JInv st -> JInv (step_st st o).
+Proof. exact step_inv. Qed.
+Theorem C09J_invariant_reachable : forall ops, JInv (run ops).
+Proof. exact reachable_inv. Qed.
+(* read off it, for every history: *)
+Theorem C09J_registered_iff_not_closed : forall ops x, In x (m_objs (run ops)) ->
+  (memN (c_id x) (m_clients (run ops)) = true <-> c_closed x = false).
+Proof. exact registered_not_closed. Qed.
+Theorem C09J_registered_has_object : forall ops c, In c (m_clients (run ops)) ->
+  exists x, get_obj (run ops) c = Some x /\ c_closed x = false /\ c_handle x <> HNone /\ (c_kind x = Pub -> c_room x <> HNone).
+Proof. exact registered_has_object. Qed.
+Theorem C09J_closed_has_nothing : forall ops x, In x (m_objs (run ops)) -> c_closed x = true ->
+  memN (c_id x) (m_clients (run ops)) = false /\ c_handle x = HNone /\ (c_kind x = Pub -> c_room x = HNone) /\
+  (forall k, ~ In (k, c_id x) (m_pubs (run ops))).
+Proof. exact closed_has_nothing. Qed.
+Theorem C09J_ids_below_counter : forall ops x, In x (m_objs (run ops)) -> 0 < c_id x < m_next (run ops).
+Proof. exact ids_below_counter. Qed.
+Theorem C09J_publishers_name_registered : forall ops k c, In (k, c) (m_pubs (run ops)) ->
+  exists x, get_obj (run ops) c = Some x /\ c_kind x = Pub /\ ckey x = k /\ c_closed x = false /\
+            memN c (m_clients (run ops)) = true.
+Proof. exact pubs_name_registered. Qed.
+
+Print Assumptions C09J_invariant_reachable.
+Print Assumptions C09J_registered_iff_not_closed.
+Print Assumptions C09J_registered_has_object.
+Print Assumptions C09J_closed_has_nothing.
+Print Assumptions C09J_ids_below_counter.
+Print Assumptions C09J_publishers_name_registered.
+
+(* (3) What doReconnect leaves, exactly (from any state satisfying JInv, so after any history: C09J_reconnect_exact_run):
+   the gateway answers and mcu.publishers is empty; the gateway's rooms are, in the order of mcu.clients and without
+   repetition, exactly one per client that was registered, is a publisher and whose "create" was not refused
+   (recreated), its handles are the MCU's own handle followed by the same list -- so nothing else is there;
+   mcu.clients afterwards is exactly the registered publishers (every registered subscriber has closed itself and its
+   listener was told SubscriberClosed); and per publisher registered afterwards: "create" not refused -- open, handle
+   and room live, exactly one handle and one room at the gateway; "create" refused -- open and registered with a
+   stale handle and room number and nothing at the gateway. *)
+Theorem C09J_reconnect_exact : forall st fail, JInv st ->
+  let st' := fst (reconnect st fail) in
+  reachable st' = true /\ m_pubs st' = [] /\
+  g_handles st' = 0 :: g_rooms st' /\
+  g_rooms st' = filter (recreated fail st) (m_clients st) /\ NoDup (g_rooms st') /\
+  (forall c, In c (m_clients st') <-> In c (m_clients st) /\ is_sub_id st c = false) /\
+  (forall c, In c (m_clients st') ->
+     exists x', get_obj st' c = Some x' /\ c_kind x' = Pub /\ c_closed x' = false /\
+       if mem_key (ckey x') fail
+       then c_handle x' = HStale /\ c_room x' = HStale /\ ~ In c (g_handles st') /\ ~ In c (g_rooms st')
+       else c_handle x' = HLive /\ c_room x' = HLive /\ countN c (g_handles st') = 1 /\ countN c (g_rooms st') = 1) /\
+  snd (reconnect st fail) = map ESubClosed (filter (is_sub_id st) (m_clients st)).
+Proof. exact reconnect_exact. Qed.
+Theorem C09J_reconnect_exact_run : forall ops fail,
+  let st := run ops in let st' := run (ops ++ [OReconnect fail]) in
+  reachable st' = true /\ g_handles st' = 0 :: g_rooms st' /\
+  g_rooms st' = filter (recreated fail st) (m_clients st) /\ NoDup (g_rooms st') /\
+  (forall c, In c (m_clients st') <-> In c (m_clients st) /\ is_sub_id st c = false).
+Proof.
+  intros ops fail st st'.
+  assert (E : st' = fst (reconnect st fail)).
+  { unfold st'. rewrite run_snoc. apply step_st_reconnect. }
+  rewrite E. destruct (reconnect_exact st fail (reachable_inv ops)) as (H1 & _ & H3 & H4 & H5 & H6 & _). auto.
+Qed.
+(* whatever the gateway holds after doReconnect is the MCU's handle or belongs to a client registered after it *)
+Theorem C09J_reconnect_nothing_else : forall st fail c, JInv st ->
+  let st' := fst (reconnect st fail) in
+  (In c (g_handles st') -> c = 0 \/ In c (m_clients st')) /\ (In c (g_rooms st') -> In c (m_clients st')).
+Proof. exact reconnect_nothing_else. Qed.
+
+Print Assumptions C09J_reconnect_exact.
+Print Assumptions C09J_reconnect_exact_run.
+Print Assumptions C09J_reconnect_nothing_else.
+
+(* (2) The trace predicate of the check is a consequence of the model: for EVERY history from init, P_C09J evaluated on
+   the model's own observations and digests is true -- all five clauses (a)-(e), with the exemption list and the
+   waiver exactly as corr/Run_C09J.v keeps them.  (Proof: proofs/Janus_trace.v; the predicate's state is tied to the
+   model's by PInv: everything the predicate counts as closed is an id handed out that is out of mcu.clients; every closed
+   object is exempt or has nothing at the gateway; the keys of the registered publishers repeat only waived keys.) *)
+From Verif Require Import proofs.Janus_trace.
+Theorem C09J_P_on_every_model_trace : forall ops, P_C09J (trace_of ops) = true.
+Proof. exact P_on_every_model_trace. Qed.
+(* from any state satisfying the invariants, with the predicate in any state consistent with it *)
+Theorem C09J_P_from_any_consistent_state : forall ops ps st, JInv st -> PInv ps st ->
+  P_from ps (digest_of st) (trace_from st ops) = true.
+Proof. exact P_from_model. Qed.
+Print Assumptions C09J_P_on_every_model_trace.
+Print Assumptions C09J_P_from_any_consistent_state.
+
+(* (4) Nothing outlives its owner at the gateway, for every history.
+   C09J_gone_forever: an id handed out that is out of mcu.clients stays out for every continuation, and at the end of the
+   continuation nothing of it is at the gateway when nothing of it was there at the start or the continuation contains
+   a reconnect.
+   C09J_closeall_nothing_outlives: in any history, after OCloseAll owner, for every client the owner had at that point:
+   at every later point it is out of mcu.clients and of mcu.publishers; and no handle and no room at the gateway belongs
+   to it -- provided the gateway answered when OCloseAll was executed and the client was still open then, or there has
+   been a reconnect since.   C09J_close_nothing_outlives: the same for OClose c (nothing refused).
+   The proviso "still open then" cannot be dropped (C09J_closeall_while_up_all_clients_refuted): newpub(1,video);
+   gwdown; close(1); gwup; closeall(1) -- the gateway answers when closeall(1) runs, and handle 1 and room 1 are still
+   there afterwards (the Close met an unreachable gateway, a second Close does nothing); they go with the next
+   reconnect or restart (C09J_left_until_forgotten).  P_C09J exempts exactly these (clause (b)). *)
+Theorem C09J_gone_forever : forall ops st c, JInv st -> 0 < c < m_next st -> memN c (m_clients st) = false ->
+  memN c (m_clients (run_from st ops)) = false /\
+  ((memN c (g_handles st) = false /\ memN c (g_rooms st) = false) \/ (exists f, In (OReconnect f) ops) ->
+   memN c (g_handles (run_from st ops)) = false /\ memN c (g_rooms (run_from st ops)) = false).
+Proof. exact gone_forever. Qed.
+Theorem C09J_closeall_nothing_outlives : forall ops1 ow ops2 x,
+  let st0 := run ops1 in let st2 := run (ops1 ++ OCloseAll ow :: ops2) in
+  In x (m_objs st0) -> c_owner x = ow ->
+  memN (c_id x) (m_clients st2) = false /\ (forall k, ~ In (k, c_id x) (m_pubs st2)) /\
+  ((reachable st0 = true /\ c_closed x = false) \/ (exists f, In (OReconnect f) ops2) ->
+   memN (c_id x) (g_handles st2) = false /\ memN (c_id x) (g_rooms st2) = false).
+Proof. exact closeall_nothing_outlives. Qed.
+Theorem C09J_close_nothing_outlives : forall ops1 c rd rt ops2,
+  let st0 := run ops1 in let st2 := run (ops1 ++ OClose c rd rt :: ops2) in
+  get_obj st0 c <> None ->
+  memN c (m_clients st2) = false /\ (forall k, ~ In (k, c) (m_pubs st2)) /\
+  ((reachable st0 = true /\ rd = false /\ rt = false /\ memN c (m_clients st0) = true) \/ (exists f, In (OReconnect f) ops2) ->
+   memN c (g_handles st2) = false /\ memN c (g_rooms st2) = false).
+Proof. exact close_nothing_outlives. Qed.
+Theorem C09J_closeall_while_up_all_clients_refuted :
+  reachable (run leftover_history) = true /\
+  (exists x, In x (m_objs (run leftover_history)) /\ c_owner x = 1 /\ c_id x = 1) /\
+  let st2 := run (leftover_history ++ [OCloseAll 1]) in
+  reachable st2 = true /\ memN 1 (g_handles st2) = true /\ memN 1 (g_rooms st2) = true /\ memN 1 (m_clients st2) = false.
+Proof. exact closeall_while_up_all_clients_refuted. Qed.
+Print Assumptions C09J_gone_forever.
+Print Assumptions C09J_closeall_nothing_outlives.
+Print Assumptions C09J_close_nothing_outlives.
+Print Assumptions C09J_closeall_while_up_all_clients_refuted.
